@@ -31,7 +31,7 @@ if [ "$prop" = "C17" ]; then
   fi
   rm -f ".work/shimbuild-$$.log"
 fi
-case "$prop" in C04|C05|C18)
+case "$prop" in C04|C05|C11|C18)
   # clocked twin: package time replaced by verifclock (go build -overlay, /repo untouched) in the non-test files under revocation/,
   # so that the instant the library reads from the clock is an environment answer; regenerated from the current tree on every run
   repo_dir="${VERIF_REPO:-/repo}"
